@@ -133,6 +133,8 @@ func c09(c *Ctx) {
 	r.Rule("R09.K", "key domains: Add under the request id; Get/Delete under an echoed request id (req_msg_id / bad_msg_id)", 5)
 	r.Rule("R09.I", "every message the transport delivers is handed on and dispatched: no successful exit of readMsg skips processResponse (or the service-channel send), none of processResponse precedes the type switch - a filter in front of the dispatch drops results callers wait for", 2)
 	c.everyMessageDispatched("R09.I")
+	r.Rule("R09.U", "the table key is unique among the requests in flight: the id a request is registered under comes from the clock at 4 ns resolution (formula evaluated, = C10 R10.C) and is drawn under the send lock - a coarser id lets two callers share one entry, and the second registration replaces the first", 1)
+	c.msgIDFormula("R09.U")
 	r.Rule("R09.D", "deliver and forget: the result is handed over by a send that cannot be skipped, and every delivering path passes Delete on both tables with the same key", 4)
 	r.Rule("R09.C", "fresh channel: the channel registered for a request is a make(chan) of this call", 1)
 	tr := an.NewTracer()
@@ -326,7 +328,7 @@ func c09(c *Ctx) {
 						all := true
 						for _, b := range w.Blocks {
 							for _, in := range b.Instrs {
-								if ret, isRet := in.(*ssa.Return); isRet && an.InstrDominates(send, ret) && !an.InstrDominates(cs.Instr, ret) {
+								if ret, isRet := an.AsReturn(in); isRet && an.InstrDominates(send, ret) && !an.InstrDominates(cs.Instr, ret) {
 									all = false
 								}
 							}
@@ -364,7 +366,7 @@ func c09(c *Ctx) {
 						resolved = true
 						for _, b := range f.Blocks {
 							for _, in := range b.Instrs {
-								if ret, ok := in.(*ssa.Return); ok && len(ret.Results) == 1 {
+								if ret, ok := an.AsReturn(in); ok && len(ret.Results) == 1 {
 									ro := tr.OriginString(an.RetVal(ret, 0))
 									srcs = append(srcs, simplifyOrigin(ro))
 									if !strings.HasPrefix(ro, "makechan:") {
@@ -403,7 +405,7 @@ func c11(c *Ctx) {
 				n++
 				uncond := true
 				for _, b := range sv.Blocks {
-					if ret, ok := b.Instrs[len(b.Instrs)-1].(*ssa.Return); ok && !an.InstrDominates(cs.Instr, ret) {
+					if ret, ok := an.AsReturn(b.Instrs[len(b.Instrs)-1]); ok && !an.InstrDominates(cs.Instr, ret) {
 						uncond = false
 					}
 				}
